@@ -90,7 +90,7 @@ func (o *Op) String() string {
 // Inject is what a hook may ask the wrapper to do instead of / around the backend call.
 type Inject struct {
 	Err   error // return this error; the backend call is NOT performed (unless Short >= 0)
-	Short int   // for writes: perform only the first Short bytes (then return Err, or io.ErrShortWrite-like n<len with nil err if Err==nil). -1 = unused
+	Short int   // for reads (> 0): deliver the first Short bytes together with Err. For writes: perform only the first Short bytes (then return Err, or io.ErrShortWrite-like n<len with nil err if Err==nil). -1 = unused
 }
 
 // Hook observes (and may perturb) backend calls.
